@@ -78,7 +78,7 @@ def run(ctx):
             if res is not None and not planted:
                 ctx.inconclusive.append("binding self-test: corrupted expectations were not detected")
             ctx.extra_cov["selftest_detected"] = len(planted)
-    ctx.exhaustive = thorough
+    ctx.exhaustive = False   # d1 (and d2) are exhaustive in the abstract scope, the simulation and the refinement are sampled
     if not ctx.failures:
         for kind, ops in OPS.items():
             for op in ops:
